@@ -22,7 +22,8 @@ MANIFEST = dict(
          "selector combination, foreign finalizers, attachments of other decorators) as a scenario; the decorator life cycles of "
          "spec/Fin.tla are added for the finalizer clause; replayed on the real decorator controller; TLC validates the trace "
          "against spec/TraceSync.tla (C16_OnlyNamedKeys, C16_StatusRule, C16_FinalizerOnly, C16_SpecUntouched, C16_NoOpNoRequest, "
-         "C16_Selected; attachments via C02/C03 monitors with the marker).",
+         "C16_Selected; attachments via C02/C03 monitors with the marker)."
+         ' Selectors are written in three styles (matchLabels / matchAnnotations, matchExpressions, mixed); C16_Selected is judged on the target as the sync knows it after a finalizer update.',
     ref="DESIGN.md §8 C16",
     tech="TLA+ request-level model + TLC behaviour enumeration replayed on real code + TLC trace validation")
 
